@@ -12,8 +12,9 @@
    that is a Crash, an Answer, a Close or a Purge is printed once as the history h'
    reaching it: every crash site of every update in every distinct state of the
    bounded model, every answered update in every distinct state.
-   Mode "hist" (no VIEW, MaxEv = 1, ACTION_CONSTRAINT EmitHist): every crash-free
-   history of exactly MaxUpd updates (contents canonical by first use), closed.   *)
+   Mode "hist" (no VIEW, MaxEv = 1, ACTION_CONSTRAINT EmitHist): every history of
+   exactly MaxUpd answered updates (contents canonical by first use), ended by the
+   clean shutdown or by a kill of the idle process.                                *)
 EXTENDS StoreCrash_MC, Json
 VARIABLE h
 gvars == <<vars, h>>
@@ -44,8 +45,8 @@ View == vars
 Interesting == nev' # nev \/ rep' # "none"
 EmitTrans == Interesting => PrintT(<<"CASE", ToJson(h')>>)
 
-\* crash-free histories: only the final Close is an environment event; without a crash it makes no
-\* difference when an assignment reaches the disk, so every assignment is written through
+\* no update is interrupted: the only environment event is the last one (Close, or Crash of the idle
+\* process); every assignment is written through
 NoCrashNext == /\ GenNext
                /\ (nev' # nev => (nupd = MaxUpd /\ pc = "idle" /\ up))
                /\ \A i \in DOMAIN h' : h'[i].reach
